@@ -271,6 +271,8 @@ def record_call(doc, call):
                 ev['res'] = {'ok': True, 'v': [[int(x), int(y)] for x, y in zip(doc, doc)]}
             except Exception as ex:  # noqa
                 ev['res'] = {'ok': False, 'v': []}
+        elif op == 'graph':
+            ev['res'] = graph_of(doc)
         elif op == 'mcount':
             try:
                 ev['res'] = {'ok': True, 'v': int(doc.measures_count())}
@@ -357,3 +359,42 @@ def record_arrangement(doc, ref, alt_lines, pairs):
 def relation(doc, rel, a, b, ea, eb):
     """A relation between two logged outputs (events a and b, 1-based indices); evaluated by TLC only."""
     return {'ev': 'call', 'op': 'relation', 'rel': rel, 'a': a, 'b': b, 'ea': ea, 'eb': eb, 'snap': snapshot(doc)}
+
+
+def graph_of(doc):
+    """kp.graph(doc, file) parsed back: ranks, edges and node labels with the node names replaced by (stage, position)."""
+    import kernpy as kp
+    import os
+    import re
+    import shutil
+    import tempfile
+    d = tempfile.mkdtemp(prefix='kernpy_graph_')
+    try:
+        path = os.path.join(d, 'g.dot')
+        try:
+            run_quiet(kp.graph, doc, path)
+            text = open(path, encoding='utf-8').read()
+        except Exception as ex:  # noqa
+            return {'ok': False, 'ranks': [], 'edges': [], 'labels': [], 'exc': type(ex).__name__}
+    finally:
+        shutil.rmtree(d, ignore_errors=True)
+    name2ptr, id2ptr, ranks = {}, {}, []
+    for m in re.finditer(r'\{rank=same; ((?:"node\d+"; )+)\}', text):
+        names = re.findall(r'"(node\d+)"', m.group(1))
+        ranks.append(len(names))
+        for i, n in enumerate(names):
+            name2ptr[n] = [len(ranks), i + 1]
+    raw = {}
+    for m in re.finditer(r'^  "(node\d+)" \[label="\{ \{ #(\d+)\| stage (\d+) \| (.*?) \| (.*?) \| (.*?) \} \|', text, re.M):
+        name, nid, stage, hdr, lastop, cat = m.groups()
+        id2ptr[nid] = name2ptr.get(name, [-1, -1])
+        raw[name] = (int(stage), hdr, lastop, cat)
+    ref = lambda t: id2ptr.get(re.sub(r'\D', '', t), [-1, -1]) if t.strip() else [0, 0]  # noqa
+    labels = [[None] * n for n in ranks]
+    for name, (stage, hdr, lastop, cat) in raw.items():
+        s_, i_ = name2ptr.get(name, [0, 0])
+        if s_ >= 1:
+            labels[s_ - 1][i_ - 1] = [stage, cat, ref(hdr), ref(lastop)]
+    labels = [[x if x is not None else [-1, 'MISSING', [0, 0], [0, 0]] for x in row] for row in labels]
+    edges = [[name2ptr.get(a, [-1, -1]), name2ptr.get(b, [-1, -1])] for a, b in re.findall(r'^  "(node\d+)" -> "(node\d+)";', text, re.M)]
+    return {'ok': True, 'ranks': ranks, 'edges': edges, 'labels': labels, 'exc': ''}
